@@ -18,10 +18,10 @@ local notation "alt0" => recompute c.schema c.frags pv
 
 theorem genP_complete (hac : Acyclic c.frags rank) (hfr : FragsOK c pv) (fuel : Nat)
     (hle : fuel ≤ F) (ih : GenP c pv rank F fuel) :
-    ∀ dfr t rt fname fid fp p v st mst rS stS, (∀ x ∈ fp.nodes, NodeOK c pv rank x.1 x.2) →
-    complete c (fuel + 1) dfr t rt fname fp.fieldNodes p v st = (rS, stS) → rS ≠ .fuelOut → stS.kfThunk = st.kfThunk →
+    ∀ dfr t rt fid fp p v st mst rS stS, (∀ x ∈ fp.nodes, NodeOK c pv rank x.1 x.2) →
+    complete c (fuel + 1) dfr t rt fp.fieldName fp.fieldNodes p v st = (rS, stS) → rS ≠ .fuelOut → stS.kfThunk = st.kfThunk →
     CompleteRel c pv rank F t v rS (mComplete c alt0 (fuel + 1) dfr t rt fid fp p v mst).1 := by
-  intro dfr t rt fname fid fp p v st mst rS stS hn h hr hkf
+  intro dfr t rt fid fp p v st mst rS stS hn h hr hkf
   cases hfo : funcOf v with
   | some r =>
     -- a func: S forces it here, M wraps it
@@ -61,16 +61,16 @@ theorem genP_complete (hac : Acyclic c.frags rank) (hfr : FragsOK c pv) (fuel : 
         exact hbad (.inr rfl) st h rfl
       | ok v' =>
         simp only [complete] at h
-        have hk1 := kfExt_complete c fuel true t rt fname fp.fieldNodes p v' st
-        rcases hS : complete c fuel true t rt fname fp.fieldNodes p v' st with ⟨r1, st1⟩
+        have hk1 := kfExt_complete c fuel true t rt fp.fieldName fp.fieldNodes p v' st
+        rcases hS : complete c fuel true t rt fp.fieldName fp.fieldNodes p v' st with ⟨r1, st1⟩
         rw [hS] at h hk1
         simp only at hk1
         cases r1 with
         | ok j =>
           simp only [Prod.mk.injEq] at h
           obtain ⟨rfl, rfl⟩ := h
-          have hF := complete_fuel_le c hle true t rt fname fp.fieldNodes p v' st _ _ hS (by simp)
-          exact ⟨_, rfl, .deferred ⟨hn, fname, st, _, _, hF, hkf, .inl rfl⟩⟩
+          have hF := complete_fuel_le c hle true t rt fp.fieldName fp.fieldNodes p v' st _ _ hS (by simp)
+          exact ⟨_, rfl, .deferred ⟨hn, st, _, _, hF, hkf, .inl rfl⟩⟩
         | fail =>
           simp only [Prod.mk.injEq] at h
           obtain ⟨rfl, rfl⟩ := h
@@ -84,14 +84,14 @@ theorem genP_complete (hac : Acyclic c.frags rank) (hfr : FragsOK c pv) (fuel : 
               simp only [List.length_cons, hk, List.length_append] at this
               omega
           simp only [hnn, Bool.false_eq_true, if_false] at hkf
-          have hF := complete_fuel_le c hle true t rt fname fp.fieldNodes p v' st _ _ hS (by simp)
-          exact .inr ⟨_, rfl, by simp [funcOf], hnn, hn, fname, st, _, _, hF, hkf, .inr ⟨rfl, hnn, rfl⟩⟩
+          have hF := complete_fuel_le c hle true t rt fp.fieldName fp.fieldNodes p v' st _ _ hS (by simp)
+          exact .inr ⟨_, rfl, by simp [funcOf], hnn, hn, st, _, _, hF, hkf, .inr ⟨rfl, hnn, rfl⟩⟩
         | fuelOut =>
           simp only [Prod.mk.injEq] at h
           exact absurd h.1.symm hr
     | _ => simp [funcOf] at hfo
   | none =>
-    rw [complete_succ_notFunc c fuel dfr t rt fname fp.fieldNodes p v st (notFunc_of_funcOf hfo)] at h
+    rw [complete_succ_notFunc c fuel dfr t rt fp.fieldName fp.fieldNodes p v st (notFunc_of_funcOf hfo)] at h
     have hfail : ∀ (st0 : St), ((Res.fail : Res JVal), st0) = (rS, stS) →
         CompleteRel c pv rank F t v rS (Res.fail : Res PVal) := by
       intro st0 h0
@@ -150,8 +150,8 @@ theorem genP_complete (hac : Acyclic c.frags rank) (hfr : FragsOK c pv) (fuel : 
     | nonNull inner =>
       simp only [completeBody] at h
       simp only
-      have hk1 := kfExt_complete c fuel dfr inner rt fname fp.fieldNodes p v st
-      rcases hS : complete c fuel dfr inner rt fname fp.fieldNodes p v st with ⟨r1, st1⟩
+      have hk1 := kfExt_complete c fuel dfr inner rt fp.fieldName fp.fieldNodes p v st
+      rcases hS : complete c fuel dfr inner rt fp.fieldName fp.fieldNodes p v st with ⟨r1, st1⟩
       rw [hS] at h hk1
       simp only at hk1
       rcases hM1 : mComplete c alt0 fuel dfr inner rt fid fp p v mst with ⟨rM1, mst1⟩
@@ -170,7 +170,7 @@ theorem genP_complete (hac : Acyclic c.frags rank) (hfr : FragsOK c pv) (fuel : 
             · simp only [Prod.mk.injEq] at h
               rw [← h.2] at hkf
               exact hkf
-        have hc := ih.complete dfr inner rt fname fid fp p v st mst _ _ hn hS (by simp) hk
+        have hc := ih.complete dfr inner rt fid fp p v st mst _ _ hn hS (by simp) hk
         simp only [CompleteRel, hM1] at hc
         obtain ⟨x, hx, hsv⟩ := hc
         subst hx
@@ -198,7 +198,7 @@ theorem genP_complete (hac : Acyclic c.frags rank) (hfr : FragsOK c pv) (fuel : 
       | fail =>
         simp only [Prod.mk.injEq] at h
         obtain ⟨rfl, rfl⟩ := h
-        have hc := ih.complete dfr inner rt fname fid fp p v st mst _ _ hn hS (by simp) hkf
+        have hc := ih.complete dfr inner rt fid fp p v st mst _ _ hn hS (by simp) hkf
         simp only [CompleteRel, hM1] at hc
         rcases hc with hc | ⟨cl, _, hne, _, _⟩
         · subst hc; exact .inl rfl
@@ -216,15 +216,15 @@ theorem genP_complete (hac : Acyclic c.frags rank) (hfr : FragsOK c pv) (fuel : 
         | list xs =>
           simp only [listOf]
           simp only at h
-          have hk1 := kfExt_items c fuel dfr item rt fname fp.fieldNodes p xs 0 [] st
-          rcases hS : completeItems c fuel dfr item rt fname fp.fieldNodes p xs 0 [] st with ⟨r1, st1⟩
+          have hk1 := kfExt_items c fuel dfr item rt fp.fieldName fp.fieldNodes p xs 0 [] st
+          rcases hS : completeItems c fuel dfr item rt fp.fieldName fp.fieldNodes p xs 0 [] st with ⟨r1, st1⟩
           rw [hS] at h hk1
           rcases hM1 : mItems c alt0 fuel dfr item rt fid fp p xs 0 [] mst with ⟨rM1, mst1⟩
           cases r1 with
           | ok js =>
             simp only [Prod.mk.injEq] at h
             obtain ⟨rfl, rfl⟩ := h
-            have hi := ih.items dfr item rt fname fid fp p xs 0 [] [] st mst _ _ hn .nil hS (by simp) hkf
+            have hi := ih.items dfr item rt fid fp p xs 0 [] [] st mst _ _ hn .nil hS (by simp) hkf
             simp only [hM1] at hi
             obtain ⟨ys, hy, hsv⟩ := hi
             subst hy
@@ -232,7 +232,7 @@ theorem genP_complete (hac : Acyclic c.frags rank) (hfr : FragsOK c pv) (fuel : 
           | fail =>
             simp only [Prod.mk.injEq] at h
             obtain ⟨rfl, rfl⟩ := h
-            have hi := ih.items dfr item rt fname fid fp p xs 0 [] [] st mst _ _ hn .nil hS (by simp) hkf
+            have hi := ih.items dfr item rt fid fp p xs 0 [] [] st mst _ _ hn .nil hS (by simp) hkf
             simp only [hM1] at hi
             subst hi
             exact .inl rfl
